@@ -68,7 +68,7 @@ def showEvent : Event → String
   | .close => "c"
 
 def showOutcome : Outcome → String
-  | .error => "E" | .passthrough c => s!"P{c}" | .installed c => s!"I{c}"
+  | .error _ => "E" | .passthrough c => s!"P{c}" | .installed c => s!"I{c}"
 
 def showTrace (o : Outcome) (log : List Event) : String :=
   showOutcome o ++ ";" ++ " ".intercalate (log.map showEvent)
@@ -88,7 +88,7 @@ def parseEvent (s : String) : Option Event :=
   else none
 
 def parseOutcome (s : String) : Option Outcome :=
-  if s = "E" then some .error
+  if s = "E" then some (.error .fault)
   else if s.startsWith "P" then (s.drop 1).toNat?.map .passthrough
   else if s.startsWith "I" then (s.drop 1).toNat?.map .installed
   else none
@@ -102,19 +102,22 @@ def parseTrace (s : String) : Option (Outcome × List Event) :=
   | _ => none
 
 /-- first event at which the checker rejects, for the failure message -/
-def firstReject (data : Text) : Spec.St → List Event → Nat → Option (Nat × Event)
+def firstReject (data : Text) (k : Kind) : Spec.St → List Event → Nat → Option (Nat × Event)
   | _, [], _ => none
   | s, e :: es, i =>
-    match Spec.stepEvent data true s e with
+    match Spec.stepEvent data k s e with
     | none => some (i, e)
-    | some s' => firstReject data s' es (i + 1)
+    | some s' => firstReject data k s' es (i + 1)
 
-def verdict (data : Text) (goTrace : String) : String :=
+/-- the Spec checker on the trace of the real code.  The script takes part: the k-th request is
+answered by the k-th connection, and the `eof_complete` clause is waived only while the current
+connection has a clean early end the reader cannot see. -/
+def verdict (data : Text) (k : Kind) (script : List Conn) (goTrace : String) : String :=
   match parseTrace goTrace with
   | none => "fail:unparsable-trace"
   | some (o, evs) =>
     if !Spec.acceptsOpen data o then "fail:200-without-body-for-nonempty-file"
-    else match firstReject data Spec.init evs 0 with
+    else match firstReject data k (Spec.init script) evs 0 with
       | none => "pass"
       | some (i, e) => s!"fail:event-{i}-{showEvent e}"
 
@@ -122,16 +125,21 @@ def handle (args : List String) : Option String :=
   match args with
   | ["retry.run", k, d, sc, ops, goTrace] =>
     let data := unhexS d
-    let impl := match parseKind k, parseScript sc, parseOps ops with
-      | some k, some sc, some ops =>
-        let (o, r) := run Cfg.generated data k sc ops
-        showTrace o r.log
-      | _, _, _ => "bad-case"
-    let v := verdict data goTrace
-    some <| impl ++ "\t" ++ v ++ "\t" ++ (if v = "pass" then "-" else "unlisted")
-  -- self-test of the oracle: the Spec checker's verdict on a hand-written (possibly tampered) trace
+    match parseKind k, parseScript sc, parseOps ops with
+    | some k, some sc, some ops =>
+      let (o, r) := run Cfg.generated data k sc ops
+      let v := verdict data k sc goTrace
+      some <| showTrace o r.log ++ "\t" ++ v ++ "\t" ++ (if v = "pass" then "-" else "unlisted")
+    | _, _, _ => some "bad-case\tfail:bad-case\tunlisted"
+  -- self-test of the oracle: the Spec checker's verdict on a hand-written (possibly tampered) trace;
+  -- the short form has no script (every request fails to connect: nothing is waived)
   | ["retry.selftest", d, goTrace] =>
-    let v := verdict (unhexS d) goTrace
+    let v := verdict (unhexS d) .honours [] goTrace
+    some <| v ++ "\t" ++ v ++ "\t-"
+  | ["retry.selftest", k, d, sc, goTrace] =>
+    let v := match parseKind k, parseScript sc with
+      | some k, some sc => verdict (unhexS d) k sc goTrace
+      | _, _ => "fail:bad-case"
     some <| v ++ "\t" ++ v ++ "\t-"
   -- end-to-end steps through FetchPackage / fetchRepositoryIndex: the verdict is computed by the harness
   | ["retry.e2e", _] => some "-\t-\tunlisted"
